@@ -130,6 +130,26 @@ def cumulative (dims : Nat) (h : Hist) : Hist :=
   if dims = 1 then prefixSums 0 (sortHist h)
   else h.map fun kv => (kv.1, ((h.filter fun kv2 => tupleCompare kv2.1 kv.1).map (·.2)).sum)
 
+/-! cumulative histograms of weighted (non-integer) bins: the C++ stores `double`, and after `normalize()` or any
+    re-weighting the running sums are sums of fractions.  Generic in the weight type (Int / Rat / Float). -/
+
+section weights
+variable {α : Type} [Add α] [OfNat α 0]
+
+def insertSortedW (x : Key × α) : List (Key × α) → List (Key × α)
+  | [] => [x]
+  | y :: ys => if keyLe x.1 y.1 then x :: y :: ys else y :: insertSortedW x ys
+def sortW (h : List (Key × α)) : List (Key × α) := h.foldr insertSortedW []
+def prefixSumsW : α → List (Key × α) → List (Key × α)
+  | _, [] => []
+  | acc, (k, c) :: rest => (k, acc + c) :: prefixSumsW (acc + c) rest
+
+/-- `cumulative_histogram` on weighted bins: the running sum has the mapped type (`double`), never an integer -/
+def cumulativeW (dims : Nat) (h : List (Key × α)) : List (Key × α) :=
+  if dims = 1 then prefixSumsW 0 (sortW h)
+  else h.map fun kv => (kv.1, ((h.filter fun kv2 => tupleCompare kv2.1 kv.1).map (·.2)).foldr (· + ·) 0)
+end weights
+
 /-! ### sub_histogram -/
 
 def project (axes : List Nat) (k : Key) : Key := axes.map (fun i => k.getD i 0)
